@@ -22,11 +22,11 @@ def select(tier, seed, names):
 # Value obligations that no back end decides with the unbounded loop contract (probed: MiniSat, kissat, CaDiCaL, z3,
 # cvc5; DESIGN.md section 1 fact 9): bounded stand-in = n <= NB per call, loop unwound, explicit per-element
 # postcondition.  Labelled bounded in evidence, never counted as proved.
-HARD_BOUNDED = {'mululq': (2, 'kissat'), 'mulll': (2, 'cvc5'), 'mullw': (2, 'z3'),
+HARD_BOUNDED = {'mululq': (2, 'kissat'), 'mulll': (2, 'cvc5'), 'mullw': (2, 'z3'), 'mulswl': (2, 'cvc5'),
                 'ldresnearb': (4, 'kissat'), 'ldresnearl': (4, 'kissat'), 'ldreslinb': (4, 'kissat')}
 # not decided within the quick budget even bounded: attempted in the thorough tier only; otherwise reported as not covered
 THOROUGH_ONLY = {'mulslq': (1, 'kissat'), 'ldreslinl': (4, 'kissat')}
-SLOW_KISSAT = {'mulhsb', 'mulhub', 'mulhsw', 'mulhuw', 'mulhsl', 'mulhul', 'mulsbw', 'mulubw', 'mulswl', 'muluwl', 'mullb',
+SLOW_KISSAT = {'mulhsb', 'mulhub', 'mulhsw', 'mulhuw', 'mulhsl', 'mulhul', 'mulsbw', 'mulubw', 'muluwl', 'mullb',
                'storeb', 'storew', 'storel', 'storeq', 'loadoffb', 'loadoffw', 'loadoffl', 'divluw', 'div255w'}
 
 
